@@ -136,6 +136,10 @@ func (c Commitments) GetCreatorAccount() sdk.AccAddress {
 }
 
 func (vesting *VestingTokens) VestedSoFar(ctx sdk.Context) math.Int {
+	if vesting.NumBlocks <= 0 {
+		// a zero-length schedule (VestingInfo.Validate allows NumBlocks == 0) is fully vested at once
+		return vesting.TotalAmount
+	}
 	totalBlocks := ctx.BlockHeight() - vesting.StartBlock
 	if totalBlocks > vesting.NumBlocks {
 		totalBlocks = vesting.NumBlocks
